@@ -440,4 +440,71 @@ def nodeBy (w : World) (insts : List (Str × Str)) (path : Str) : Except Err (St
   let e ← w.cache.by_ path
   resolveCached w insts e.name path
 
+/-! ### query histories (the "for all permutations of node queries" quantifier of the property) -/
+
+/-- a history of `Nodes.by` queries threading `NodeResolver.__insts`; a query that raises leaves the instance cache
+    as it was (`resolver.py:45-55` writes `__insts` only right before the successful return). -/
+def runQueries (w : World) : List (Str × Str) → List Str → List (Str × Str)
+  | insts, [] => insts
+  | insts, q :: qs =>
+    match nodeBy w insts q with
+    | .ok (_, insts') => runQueries w insts' qs
+    | .error _ => runQueries w insts qs
+
+/-- every instance cache the resolver can be in: empty after construction / `clear()`, then any number of successful
+    `Nodes.by` calls (the `children` / `siblings` / `parent` / `ancestor` queries resolve their result paths through
+    `Nodes.by` too, so their effect on the cache is a sequence of such steps, completed or cut short by an exception). -/
+inductive Reachable (w : World) : List (Str × Str) → Prop where
+  | init : Reachable w []
+  | step {insts insts' : List (Str × Str)} {q c : Str} :
+      Reachable w insts → nodeBy w insts q = .ok (c, insts') → Reachable w insts'
+
+/-! ### well-formed tags (side condition of the string codec) -/
+
+/-- a tag the path codec is faithful for: non-empty and free of the three meta characters. True of every lark
+    rule / terminal name and of `__empty__`. -/
+def WfTag (t : Str) : Prop := t ≠ [] ∧ '.' ∉ t ∧ '[' ∉ t ∧ ']' ∉ t
+
+instance (t : Str) : Decidable (WfTag t) := by unfold WfTag; exact inferInstance
+
+mutual
+/-- every tag of the tree (and `__empty__` for empty entries) is `WfTag`, as a Bool -/
+def wfTagsB : Entry → Bool
+  | .tree t cs => decide (WfTag t) && wfTagsListB cs
+  | .token t _ => decide (WfTag t)
+  | .empty => decide (WfTag emptyName)
+def wfTagsListB : List Entry → Bool
+  | [] => true
+  | c :: cs => wfTagsB c && wfTagsListB cs
+end
+
+def WfTags (e : Entry) : Prop := wfTagsB e = true
+
+instance (e : Entry) : Decidable (WfTags e) := by unfold WfTags; exact inferInstance
+
+def WfPath (p : Path) : Prop := ∀ el ∈ p, WfTag el.tag
+
+/-- the `index` component `__break_tag` returns for an element -/
+def Elem.idxInt (el : Elem) : Int :=
+  match el.idx with
+  | none => -1
+  | some i => (i : Int)
+
+/-! ### specification functions for `children` / `parent` (used in theorem statements only) -/
+
+/-- path elements of the children `cs` (positions `i…`) among the siblings `all`, in child order -/
+def childElemsAux (all : List Entry) : List Entry → Nat → List Elem
+  | [], _ => []
+  | c :: rest, i => elemFor all i c :: childElemsAux all rest (i+1)
+
+/-- path elements of the children of an entry, in child order -/
+def childElems : Entry → List Elem
+  | .tree _ cs => childElemsAux cs cs 0
+  | _ => []
+
+/-- nearest element (from the end) whose tag is resolvable, on a reversed path: the reversed prefix ending there -/
+def nearestRes (canRes : Str → Bool) : List Elem → Option (List Elem)
+  | [] => none
+  | el :: rest => if canRes el.tag then some (el :: rest) else nearestRes canRes rest
+
 end Tranp.AstPath
